@@ -70,6 +70,7 @@ def check(ctx):
     ctx.rule("T6-fiat", "Fiat<X>.action: sends <X> to tasker.runner and returns status == <X>ED")
     ctx.rule("T6-names", "builder control words -> actor names all exist in the registrar passed to Act")
     ctx.rule("T6-contexts", "Want._resolve contexts=[ACTIVE, INACTIVE]; Fiat._resolve contexts=[SLAVE]")
+    ctx.rule("T9-lastbid", "Framer.makeRunner assigns .desire before, never after, the actions of a control step (except the final ABORT)")
     ctx.rule("T6-fsm", "every control branch of makeRunner distinguishes running, stopped/readied and other status")
 
     want = ctx.cls("wanting", "Want")
@@ -202,6 +203,21 @@ def check(ctx):
               "resolveTasker raises when schedule not in contexts", "context restriction must be enforced")
 
     mr, M = start_guards(ctx)
+    # last bid wins: the actions a control step runs (enter/exit/recur/segue) may bid on this very framer; the runner must not
+    # overwrite .desire after running them in the same step (only the final ABORT does)
+    mc = M.cfg
+    yields = [n.id for n in mc.nodes if any(isinstance(x, ast.Yield) for x in mc.walk_node(n))]
+    acts = M.call_nodes(("self.exitAll", "self.enterAll", "self.recur", "self.segue"))
+    late = []
+    for a in acts:
+        r = mc.reachable([b for b, _ in mc.succ[a.id]], removed_nodes=yields)
+        for i in r:
+            n = mc.nodes[i]
+            if isinstance(n.ast, ast.Assign) and dotted(n.ast.targets[0]) == "self.desire" and dotted(n.ast.value) != "ABORT":
+                late.append("line %d: %s after %s" % (n.lineno, src(n.ast), src(a.ast)[:30]))
+    ctx.check(not late, "T9-lastbid", mr, "makeRunner never re-assigns .desire after running the step's actions %s" % (late[:1] or ""),
+              "a bid the framer's own exit/enter actions make on it during this step (e.g. `bid start me` in an exit action) is "
+              "overwritten: the last bid does not win")
     # fsm exhaustiveness
     for name in ("RUN", "READY", "START", "STOP"):
         ts = M.tests(lambda t, name=name: isinstance(t, ast.Compare) and len(t.ops) == 1 and isinstance(t.ops[0], ast.Eq)
